@@ -132,10 +132,13 @@ def _collect(tier):
     # yes/no options given as YAML booleans (unquoted yes / no) at the global and group levels
     ybool = [{"rule": {"global": {"ignore_single_line": True}, "group": {"alignment": {"compact_alignment": True, "blank_line_ends_group": False, "comment_line_ends_group": False},
                                                                         "structure": {"ignore_single_line": False}}}}]
+    # list options whose ORDER matters (the first matching exception wins): overlapping entries, the longer first
+    olists = [{"rule": {"signal_004": {"prefix_exceptions": ["s_axi_", "s_"], "suffix_exceptions": ["_reg_n", "_n"]}, "constant_004": {"prefix_exceptions": ["c_big_", "c_"]},
+                        "port_010": {"prefix_exceptions": ["p_in_", "p_"], "suffix_exceptions": ["_in_i", "_i"]}}}]
     scen = []
     for style in (None, "jcl", "indent_only"):
-        for cname, cfgs in (("none", []), ("sweep1", [sweep1]), ("layered", lay), ("severity", [sev]), ("yaml-booleans", ybool), ("sweep2+layered", [sweep2] + lay)):
-            if q and style == "indent_only" and cname not in ("none", "layered", "yaml-booleans"):
+        for cname, cfgs in (("none", []), ("sweep1", [sweep1]), ("layered", lay), ("severity", [sev]), ("yaml-booleans", ybool), ("ordered-lists", olists), ("sweep2+layered", [sweep2] + lay)):
+            if q and style == "indent_only" and cname not in ("none", "layered", "yaml-booleans", "ordered-lists"):
                 continue
             scen.append({"name": "%s+%s" % (style, cname), "style": style, "configs": cfgs, "inputs": inputs[:2] if q else inputs})
     for k in range(nsh):
@@ -223,7 +226,7 @@ def _collect(tier):
             elif t == "cfgerror":
                 f = {"property": prop, "clause": clause, "rule": r["name"], "input": "cfgerror:" + r["where"], "config": "", "detail": {"exit": r["exit"], "output": r["output"]}}
             elif t == "roundtrip":
-                f = {"property": prop, "clause": clause, "rule": "", "input": "roundtrip:" + r["name"], "config": "", "detail": {"status": r["status"], "diff": r.get("diff")}}
+                f = {"property": prop, "clause": clause, "rule": "", "input": "roundtrip:" + r["name"], "config": "", "detail": {"status": r["status"], "diff": r.get("diff"), "effective_differs": r.get("effDiff")}}
             else:
                 f = {"property": prop, "clause": clause, "rule": "", "input": r["file"], "config": r["cfg"], "detail": {}}
             findings.append(f)
